@@ -40,6 +40,20 @@ func (p Prop) MarshalJSON() ([]byte, error) {
 	return json.Marshal([]any{p.Iri, vs})
 }
 
+func (p *Prop) UnmarshalJSON(b []byte) error {
+	var parts []json.RawMessage
+	if err := json.Unmarshal(b, &parts); err != nil {
+		return err
+	}
+	if len(parts) != 2 {
+		return fmt.Errorf("prop: expected [iri, values]")
+	}
+	if err := json.Unmarshal(parts[0], &p.Iri); err != nil {
+		return err
+	}
+	return json.Unmarshal(parts[1], &p.Vals)
+}
+
 type Node struct {
 	Id    string   `json:"id"`
 	Types []string `json:"types"`
